@@ -211,6 +211,74 @@ func bump(e reflect.Value) {
 	}
 }
 
+// saneEnc: do the counts and lengths of a composite encoding fit the bytes that are there? (a held result that
+// was overwritten can announce 2^31 elements; it is printed raw instead of being handed to the canonical re-ordering)
+func saneEnc(proto byte, t *valgen.Ty, d []byte) bool {
+	size := func(p byte, d []byte) (int, []byte, bool) {
+		if p > 2 {
+			if len(d) < 4 {
+				return 0, nil, false
+			}
+			return int(int32(uint32(d[0])<<24 | uint32(d[1])<<16 | uint32(d[2])<<8 | uint32(d[3]))), d[4:], true
+		}
+		if len(d) < 2 {
+			return 0, nil, false
+		}
+		return int(d[0])<<8 | int(d[1]), d[2:], true
+	}
+	switch t.Name {
+	case "list", "set", "map":
+		n, rest, ok := size(proto, d)
+		if !ok || n < 0 || n > len(rest) {
+			return false
+		}
+		per := len(t.Elems)
+		for i := 0; i < n*per; i++ {
+			m, r, ok := size(proto, rest)
+			if !ok || m > len(r) {
+				return false
+			}
+			rest = r
+			if m < 0 {
+				continue
+			}
+			if !saneEnc(proto, t.Elems[i%per], rest[:m]) {
+				return false
+			}
+			rest = rest[m:]
+		}
+		return true
+	case "tuple", "udt":
+		rest := d
+		for i := 0; i < len(t.Elems) && len(rest) > 0; i++ {
+			m, r, ok := size(4, rest)
+			if !ok || m > len(r) {
+				return false
+			}
+			rest = r
+			if m < 0 {
+				continue
+			}
+			if !saneEnc(proto, t.Elems[i], rest[:m]) {
+				return false
+			}
+			rest = rest[m:]
+		}
+		return true
+	}
+	return true
+}
+
+// canonHex: the bytes in canonical entry order (a Go map has none), or raw when they do not parse
+func canonHex(words []string, b []byte) string {
+	p, t, v := valgen.ParseTV(words) // parsed again: the harness's own description must not share memory with the value
+	b = append([]byte{}, b...)
+	if !saneEnc(p, t, b) {
+		return "unparsable:" + valgen.HexC(b)
+	}
+	return valgen.HexC(valgen.Canon(p, t, v, b))
+}
+
 func execHeld(procs string, w []string) string {
 	return withProcs(procs, func() string {
 		slots := map[int]*heldSlot{}
@@ -289,8 +357,7 @@ func heldStep(slots map[int]*heldSlot, w []string) (res string) {
 			return fmt.Sprintf("s%d=none", k)
 		}
 		if s.enc {
-			p, t, v := valgen.ParseTV(s.words) // parsed again: the harness's own description must not share memory with the value
-			return fmt.Sprintf("s%d=%s", k, valgen.HexC(valgen.Canon(p, t, v, append([]byte{}, s.res...))))
+			return fmt.Sprintf("s%d=%s", k, canonHex(s.words, s.res))
 		}
 		return fmt.Sprintf("s%d=%s", k, normNilBytes(s.show()))
 	case "m":
@@ -557,8 +624,8 @@ func genHeld(g *valgen.Gen) (string, string) {
 // fixedHeldOps: small scenarios of every family, run first on every invocation (replay inputs of the Lean
 // counterexample theorems C12_cex_pooled_collection / C12_cex_alias_data / C12_passthrough_witness among them)
 var fixedHeldOps = []string{
-	"held 1 h 0 s 4 list int sl k int32 3 i int32 1 i int32 2 i int32 3 ; h 1 s 4 list int sl k int32 3 i int32 -1 i int32 -2 i int32 -3 ; c 0 ; c 1",
-	"held 1 h 0 s 4 map text int map string k int32 1 s 6b i int32 16909060 ; x s 4 list int sl k int32 2 i int32 2139062143 i int32 2139062143 ; c 0",
+	"held 1 h 0 s 4 list bigint sl k int64 2 i int64 5 i int64 6 ; h 1 s 4 list bigint sl k int64 2 i int64 7 i int64 8 ; c 0 ; c 1",
+	"held 1 h 0 s 4 map ascii smallint map string k int16 2 s 61 i int16 258 s 62 i int16 -2 ; x s 4 set boolean sl bool 3 bool 1 bool 0 bool 1 ; c 0",
 	"held 1 h 0 s 3 set text sl string 2 s 6161 s 6262 ; x g 3 set text sl string 2 s 7a7a s 7979 ; c 0",
 	"held 0 h 0 g 2 list int sl k int32 2 i int32 1 i int32 2 ; h 1 g 2 list bigint sl k int64 1 i int64 -1 ; c 0 ; c 1",
 	"held 1 u 0 s 4 blob 010203 bytes ; m 0 ff ; c 0",
@@ -566,6 +633,6 @@ var fixedHeldOps = []string{
 	"held 1 h 0 s 4 blob b 010203 ; m 0 ff ; c 0",
 	"held 1 h 0 s 4 list blob sl bytes 2 b 0102 b 0a ; m 0 ff ; c 0",
 	"held 1 h 0 s 4 tuple 2 int text st 2 i int32 7 s 6162 ; h 1 s 4 tuple 2 int text st 2 i int32 -7 s 7a7a ; u 2 s 4 int 0000002a k int32 ; c 0 ; c 1 ; c 2",
-	"conn 4 q ; s ; v 4 list int sl k int32 3 i int32 1 i int32 2 i int32 3 ; v 4 list int sl k int32 3 i int32 -1 i int32 -2 i int32 -3",
-	"conn 3 b ; s ; v 3 map text int map string k int32 1 s 6b i int32 16909060 ; s ; v 3 list int sl k int32 2 i int32 2139062143 i int32 2139062143 ; v 3 set text sl string 1 s 61",
+	"conn 4 q ; s ; v 4 set smallint sl k int16 2 i int16 5 i int16 6 ; v 4 int i int32 9 ; v 4 set smallint sl k int16 2 i int16 7 i int16 8",
+	"conn 3 b ; s ; v 3 map ascii bigint map string k int64 1 s 6b6b i int64 72623859790382856 ; s ; v 3 list double sl f64 1 f64 4607182418800017408 ; v 3 set text sl string 1 s 61",
 }
